@@ -415,6 +415,41 @@ func journal(o Opts, raw []byte) {
 	os.WriteFile(filepath.Join(dir, "journal-"+o.Property+"-"+o.Name+".json"), doc, 0644)
 }
 
+// Fuzz runs gen+check under Go's native coverage-guided fuzzer: the
+// fuzzer's bytes drive rapid's generators (rapid.MakeFuzz), so the
+// same structured cases are produced, now selected by coverage.  A
+// failing case is written as a replay file by the worker itself.
+func Fuzz[C any](f *testing.F, o Opts, gen func(*rapid.T) C, check func(C) Verdict) {
+	f.Add([]byte{})
+	f.Add([]byte{0x01, 0x23, 0x45, 0x67, 0x89, 0xab, 0xcd, 0xef, 0x10, 0x32, 0x54, 0x76, 0x98, 0xba, 0xdc, 0xfe})
+	prop := func(rt *rapid.T) {
+		c := gen(rt)
+		raw, err := json.Marshal(c)
+		if err != nil {
+			return
+		}
+		if o.Journal {
+			journal(o, raw)
+		}
+		v := safeCheck(check, c)
+		if v.Skip {
+			return
+		}
+		if v.Err != "" {
+			dir := os.Getenv("VERIF_REPLAY_DIR")
+			if dir != "" {
+				dir = filepath.Join(dir, o.Property)
+				os.MkdirAll(dir, 0755)
+				doc, _ := json.MarshalIndent(map[string]interface{}{"property": o.Property, "check": o.Name,
+					"message": v.Err, "case": json.RawMessage(raw), "found_by": "native fuzzing"}, "", " ")
+				os.WriteFile(filepath.Join(dir, fmt.Sprintf("fuzz-%s-%016x.json", o.Name, hashOf(raw))), doc, 0644)
+			}
+			rt.Fatalf("%s", v.Err)
+		}
+	}
+	f.Fuzz(rapid.MakeFuzz(prop))
+}
+
 func safeCheck[C any](check func(C) Verdict, c C) (v Verdict) {
 	defer func() {
 		if x := recover(); x != nil {
